@@ -69,20 +69,28 @@ func timeNS(t value) value {
 
 // Now returns a fresh symbolic instant ≥ the previous one.
 func (w *World) Now() value {
+	// The clock is an arbitrary (symbolic) instant fixed at first use; it moves
+	// only when the harness advances it, when a goroutine sleeps or when a
+	// timer fires. (Native replays run in milliseconds, so harnesses keep a
+	// margin between ages and thresholds — stated as a bound where used.)
+	if w.now != nil {
+		return w.now
+	}
 	i := w.i
 	ts := i.ts()
-	v := i.fresh("now", "now", types.Int64).(symv)
-	var prev *Term
-	if w.now == nil {
-		prev = ts.BV(uint64(baseNow), 64)
-	} else {
-		prev = i.term(w.now)
-	}
-	// prev ≤ v < prev + 2^40 ns (≈ 18 min per step; keeps everything far from overflow)
-	i.path.addPC(ts.BVCmp("bvsle", prev, v.t))
-	i.path.addPC(ts.BVCmp("bvslt", v.t, ts.BVBin("bvadd", prev, ts.BV(1<<40, 64))))
+	// not a replay input: natively the real clock is used
+	v := symv{ts.Var("clock!now", bvSort(64)), types.Int64}
+	base := ts.BV(uint64(baseNow), 64)
+	i.path.addPC(ts.BVCmp("bvsle", base, v.t))
+	i.path.addPC(ts.BVCmp("bvslt", v.t, ts.BVBin("bvadd", base, ts.BV(1<<50, 64))))
 	w.now = v
 	return v
+}
+
+// Advance moves the clock forward by d (≥ 0).
+func (w *World) Advance(d value) {
+	w.Now()
+	w.now = binop(w.i, tokenADD, nil, w.now, d)
 }
 
 // advance moves the clock forward to at least t.
